@@ -150,6 +150,18 @@ def build(rng, tier, rec):
                 return "ok"
             cases.append(Case(None, impl2, value_oracle(box2, lambda dA=dA, q=q: dA.reshape(q + q), q, q, 1e-12, "to_qtt(operator)"),
                               "to_qtt/ttm/complex-trailing-units/%d" % fi, True, desc="to_qtt complex operator M=N=%s" % (sM,)))
+    # deterministic family: splitting a mode whose new bond needs a rank far above 100 (no hidden default cap inside the splitting helper)
+    for fi, (src, Rs, dst) in enumerate([([12, 144, 12], [1, 12, 12, 1], [12, 12, 12, 12]), ([16384], [1, 1], [128, 128])][: (2 if tier != "quick" else 1)]):
+        g = tn.Generator().manual_seed(rng.randrange(1 << 30))
+        x = torchtt.TT([tn.randn([Rs[k], src[k], Rs[k + 1]], generator=g, dtype=tn.float64) for k in range(len(src))])
+        dx = dense_of(x)
+        box = {}
+
+        def impl(x=x, dst=dst, box=box):
+            box["r"] = torchtt.reshape(x, list(dst), 1e-12)
+            return "ok"
+        cases.append(Case(None, impl, value_oracle(box, lambda dx=dx, dst=dst: dx.reshape(dst), dst, None, 1e-12, "reshape"), "reshape/tt/high-rank-split/%d" % fi, True,
+                          desc="reshape N=%s R=%s -> %s" % (src, Rs, dst)))
     # operators
     for _ in range(8 if tier == "quick" else 60):
         m, n = rng.choice([(4, 6), (6, 4), (8, 4), (4, 4), (6, 6), (12, 2)])
